@@ -3,12 +3,14 @@
 # The change is applied to a scratch copy of /repo's working tree (PYTRS_REPO points the check at it), so /repo
 # itself is never touched and several of these can run side by side.  (Equivalent to: git -C /repo apply <patch>;
 # ./check ...; git -C /repo checkout -- .)
-name="$1"; chk="$2"; tier="${3:-quick}"
+# VERIF_ROOT=<copy of /verif> runs the check from a snapshot (so /verif can be edited meanwhile); the patch is always
+# taken from /verif/seeded.
+name="$1"; chk="$2"; tier="${3:-quick}"; root="${VERIF_ROOT:-/verif}"
 w=$(mktemp -d /tmp/mut_XXXXXX)
 cp -r /repo/pytrs "$w/" && git -C "$w" init -q 2>/dev/null
 (cd "$w" && git apply /verif/seeded/$name/patch.diff) || { echo "$name: patch does not apply"; rm -rf "$w"; exit 2; }
-mkdir -p /tmp/ev_backup; cp /verif/evidence/$chk.json /tmp/ev_backup/$chk.$$.json 2>/dev/null
-cd /verif && PYTRS_REPO="$w" ./check $chk --tier $tier > /tmp/try_$name.$chk.log 2>&1; rc=$?
-cp /tmp/ev_backup/$chk.$$.json /verif/evidence/$chk.json 2>/dev/null; rm -f /tmp/ev_backup/$chk.$$.json
+mkdir -p /tmp/ev_backup; cp $root/evidence/$chk.json /tmp/ev_backup/$chk.$$.json 2>/dev/null
+cd $root && PYTRS_REPO="$w" ./check $chk --tier $tier > /tmp/try_$name.$chk.log 2>&1; rc=$?
+cp /tmp/ev_backup/$chk.$$.json $root/evidence/$chk.json 2>/dev/null; rm -f /tmp/ev_backup/$chk.$$.json
 rm -rf "$w"
 echo "$name vs $chk ($tier): exit=$rc  $(grep -c '^VIOLATION' /tmp/try_$name.$chk.log) VIOLATION lines; $(tail -1 /tmp/try_$name.$chk.log)"
